@@ -1422,7 +1422,7 @@ func ruleBatchOrder(c *chk.Ctx) {
 			continue
 		}
 		sig := f.Signature
-		if sig.Params().Len() == 2 && sig.Results().Len() == 2 && strings.HasSuffix(sig.Params().At(1).Type().String(), "[]"+c.M.Pkg.Pkg.Path()+".Spec") {
+		if ir.Exported(f) && sig.Params().Len() == 2 && sig.Results().Len() == 2 && strings.HasSuffix(sig.Params().At(1).Type().String(), "[]"+c.M.Pkg.Pkg.Path()+".Spec") {
 			batch = f
 		}
 		if sig.Params().Len() == 2 && sig.Results().Len() == 2 && isJmessagesType(c, sig.Params().At(1).Type()) {
@@ -1435,7 +1435,7 @@ func ruleBatchOrder(c *chk.Ctx) {
 	}
 	// reqs[i] = req built from specs[i] (same index)
 	okIdx := false
-	ir.Instrs(batch, func(ins ssa.Instruction) {
+	c.P.ExtInstrs(batch, func(ins ssa.Instruction) {
 		st, ok := ins.(*ssa.Store)
 		if !ok {
 			return
@@ -1491,27 +1491,67 @@ func ruleBatchOrder(c *chk.Ctx) {
 		}
 	}
 	c.Check(okRet, "PROV.order", batch, "responses returned in send's order", batch.Pos(), "Batch returns the slice send produced, unchanged", "Batch does not return send's response slice unchanged")
-	// send: one append of a pending slot per request with an id, inside one loop over the requests
+	// send: pending slots are collected by appends inside loops; exactly one of these appends is
+	// the filter (governed by id != ""), any other merely copies, unconditionally, what the
+	// filter collected
+	holdsResponse := func(t types.Type) bool {
+		sl, ok := t.Underlying().(*types.Slice)
+		if !ok {
+			return false
+		}
+		el := sl.Elem()
+		if strings.HasSuffix(el.String(), "*"+c.M.Pkg.Pkg.Path()+".Response") {
+			return true
+		}
+		if st, ok := el.Underlying().(*types.Struct); ok {
+			for i := 0; i < st.NumFields(); i++ {
+				if strings.HasSuffix(st.Field(i).Type().String(), "*"+c.M.Pkg.Pkg.Path()+".Response") {
+					return true
+				}
+			}
+		}
+		return false
+	}
 	var apps []*ssa.Call
 	c.P.ExtInstrs(send, func(ins ssa.Instruction) {
 		if call, ok := ins.(*ssa.Call); ok {
-			if b, isB := call.Call.Value.(*ssa.Builtin); isB && b.Name() == "append" && strings.HasSuffix(call.Type().String(), "[]*"+c.M.Pkg.Pkg.Path()+".Response") {
+			if b, isB := call.Call.Value.(*ssa.Builtin); isB && b.Name() == "append" && holdsResponse(call.Type()) {
 				apps = append(apps, call)
 			}
 		}
 	})
-	okApp := len(apps) == 1 && ir.InCycle(apps[0].Block())
-	if okApp {
-		gov := false
-		for _, cd := range ir.CondsAt(apps[0].Block()) {
-			if bo, ok := cd.V.(*ssa.BinOp); ok {
-				if s, isS := constString(bo.Y); isS && s == "" && ((bo.Op == token.NEQ && cd.Truth) || (bo.Op == token.EQL && !cd.Truth)) {
+	filters, okApp := 0, len(apps) >= 1
+	for _, ap := range apps {
+		if !ir.InCycle(ap.Block()) {
+			okApp = false
+		}
+		gov, other := false, false
+		for _, cd := range ir.CondsAt(ap.Block()) {
+			if x, y, op, ok := ir.Rel(cd); ok {
+				sx, isX := constString(x)
+				sy, isY := constString(y)
+				if ((isY && sy == "") || (isX && sx == "")) && op == token.NEQ {
 					gov = true
+					continue
 				}
 			}
+			if isLoopCond(cd) || isLenCond(cd) {
+				continue
+			}
+			if call, ok := cd.V.(*ssa.Call); ok && call.Common().Value != nil {
+				if _, isNext := call.Common().Value.(*ssa.Builtin); isNext {
+					continue
+				}
+			}
+			other = true
 		}
-		okApp = gov
+		if gov {
+			filters++
+		} else if other {
+			okApp = false
+		}
 	}
+	okApp = okApp && filters == 1
 	c.Check(okApp, "PROV.order", send, "one slot per id-carrying request, in order", send.Pos(), "a single append inside the loop over the requests, governed by id != \"\"", "pending slots are not created one per id-carrying request in a single in-order pass")
 }
 
